@@ -312,6 +312,7 @@ type lexer struct {
 	name        string    // the name of the input; used only during errors.
 	input       string    // the string being scanned.
 	state       stateFn   // the next lexing function to enter.
+	base        ast.Pos   // position of the input in the file it was cut out of (quoted expressions).
 	pos         ast.Pos   // current position in the input.
 	start       ast.Pos   // start position of this item.
 	width       int       // width of last rune read from input.
@@ -345,9 +346,16 @@ func lex(name, input string) *lexer {
 
 // lexExpr lexes a single expression.
 func lexExpr(name, input string) *lexer {
+	return lexExprAt(name, input, 0)
+}
+
+// lexExprAt lexes a single expression that was cut out of a file (the value of
+// a quoted attribute); its items get positions in that file, counted from base.
+func lexExprAt(name, input string, base ast.Pos) *lexer {
 	l := &lexer{
 		name:  name,
 		input: input,
+		base:  base,
 		items: make(chan item),
 		state: lexInsideTag,
 	}
@@ -392,7 +400,7 @@ func (l *lexer) emit(t itemType) {
 	if l.pos > ast.Pos(len(l.input)) {
 		l.pos = ast.Pos(len(l.input))
 	}
-	l.lastEmit = item{t, l.pos, l.input[l.start:l.pos]}
+	l.lastEmit = item{t, l.base + l.pos, l.input[l.start:l.pos]}
 	l.items <- l.lastEmit
 	l.start = l.pos
 }
@@ -423,11 +431,12 @@ func (l *lexer) acceptRun(valid string) bool {
 // lineNumber reports which line we're on. Doing it this way
 // means we don't have to worry about peek double counting.
 func (l *lexer) lineNumber(pos ast.Pos) int {
-	return 1 + strings.Count(l.input[:pos], "\n")
+	return 1 + strings.Count(l.input[:pos-l.base], "\n")
 }
 
 // columnNumber reports which column in the current line we're on.
 func (l *lexer) columnNumber(pos ast.Pos) int {
+	pos -= l.base
 	n := strings.LastIndex(l.input[:pos], "\n")
 	if n == -1 {
 		n = 0
@@ -438,7 +447,7 @@ func (l *lexer) columnNumber(pos ast.Pos) int {
 // errorf returns an error item and terminates the scan by passing
 // back a nil pointer that will be the next state, terminating l.nextItem.
 func (l *lexer) errorf(format string, args ...interface{}) stateFn {
-	l.items <- item{itemError, l.pos, fmt.Sprintf(format, args...)}
+	l.items <- item{itemError, l.base + l.pos, fmt.Sprintf(format, args...)}
 	return nil
 }
 
